@@ -177,6 +177,22 @@ def gen_plan(prop, r, tier, run):
             g2['iterations'] = r.pick([1, 2])
             ops.append(g2)
             ops.append({'op': 'run_script'})
+        if r.chance(0.3):
+            # a second, different command generated in the same process
+            # (same gentest scratch directory, same working directory)
+            prog2, refs2 = gc.gen_program(r, ident, now)
+            w1 = {e['path'] for e in prog['effects'] if e['t'] == 'write'}
+            w2 = {e['path'] for e in prog2['effects'] if e['t'] == 'write'}
+            stale = [p for p in (w1 | {b['path'] for b in by}) - w2
+                     if not p.startswith('$TMPDIR')]
+            # what the first generation itself left in the directory
+            stale += ['test_x.py', 'test_cmd_x.py', 'ref']
+            if not any(fnmatch.fnmatch(p, pat) or p == pat
+                       for p in stale for pat in refs2):
+                cfg['programs']['cmd_y'] = prog2
+                g3 = gen_gentest_op(r, refs2, name='y')
+                ops.append(g3)
+                ops.append({'op': 'run_script'})
     else:
         ops.append({'op': 'run_script'})
         ch = gen_change(r, prog, g)
@@ -199,7 +215,9 @@ def gen_change(r, prog, g):
     ch = {'op': 'peer_change', 'kind': k, 'command': 'cmd_x'}
     if k in ('out', 'err', 'file'):
         ch['how'] = r.weighted([(4, 'alter_char'), (2, 'add_line'),
-                                (2, 'remove_line'), (1, 'alter_byte')])
+                                (2, 'remove_line'), (1, 'alter_byte'),
+                                (1.5, 'join_lines')])
+        ch['sep'] = r.pick(['\x0b', '\x0c', '\x85', '\u2028', '\x1c'])
         ch['line'] = r.random()
         ch['pos'] = r.random()
         ch['char'] = r.pick('xyz019#Q')
@@ -993,6 +1011,18 @@ def change_text(ctx, op, text, ex):
         i = cands[int(op['line'] * len(cands)) % len(cands)]
         if how == 'remove_line':
             del lines[i]
+        elif how == 'join_lines':
+            # the newline after line i becomes a separator-like character
+            # (vertical tab, form feed, NEL...): one line fewer
+            if i + 1 >= len(lines) or (i + 1) not in cands:
+                ctx.stats['abstain']['no_adjacent_must_check_lines'] += 1
+                return None
+            new_l = lines[i] + op.get('sep', '\x0b') + lines[i + 1]
+            if not ex.must_check(new_l, '\n'.join(lines)):
+                ctx.stats['abstain']['changed_line_becomes_excusable'] += 1
+                return None
+            lines[i:i + 2] = [new_l]
+            ctx.stats['faults']['peer_newline_became_separator_char'] += 1
         else:
             l = lines[i]
             p = int(op['pos'] * len(l)) % len(l)
@@ -1006,7 +1036,8 @@ def change_text(ctx, op, text, ex):
                 return None
             lines[i] = new_l
     new = '\n'.join(lines) + ('\n' if trailing and lines else '')
-    if new.splitlines() == text.splitlines():
+    if new.replace('\r\n', '\n').replace('\r', '\n').split('\n') == \
+            text.replace('\r\n', '\n').replace('\r', '\n').split('\n'):
         ctx.stats['abstain']['change_invisible_as_lines'] += 1
         return None
     if ex.has_any_excusable(text):
